@@ -65,7 +65,7 @@ func TestShard3(t *testing.T) { histories(t, 3) }
 func histories(t *testing.T, shard int) {
 	run := obs.Start(t, "C15")
 	defer run.Done()
-	run.Rule("histories of 14 pin/unpin/list operations over 3..5 locally stored files that share 256 KiB blocks and contain repeated blocks, through pinning.Service (CreatePin with traversal / DeletePin) and through the HTTP endpoints, including pins made at upload time; after every operation the whole pin index is dumped; a pin records its effect D = after - before, the matching unpin must subtract exactly D, repeats must change nothing, HasPin/Pins must list exactly the references whose last operation was a pin; distinct = (files sharing?, repeated chunk?, op kinds, vias)",
+	run.Rule("histories of 14 pin/unpin/list operations over 3..5 locally stored files that share 256 KiB blocks and contain repeated blocks, through pinning.Service (CreatePin with traversal / DeletePin) and through the HTTP endpoints, including pins made at upload time; every third history adds two nested references (one data chunk of f0 as a reference of its own, and the file reference inside f0's manifest), whose root chunk is also a chunk of f0; after every operation the whole pin index is dumped; a pin records its effect D = after - before, the matching unpin must subtract exactly D, repeats must change nothing, HasPin/Pins must list exactly the references whose last operation was a pin; distinct = (files sharing?, repeated chunk?, op kinds, vias)",
 		"collection out of reach (capacity 10^6)")
 	n := run.N(200, 2000)
 	for i := shard; i < n; i += 4 {
@@ -106,6 +106,20 @@ func histories(t *testing.T, shard int) {
 				files = append(files, f)
 			}
 		}
+		// nested references (every third history): a data chunk of f0 taken as a reference of
+		// its own, and the file reference the manifest of f0 points to. Their root chunk is
+		// also a chunk of the outer reference f0.
+		parent := map[int]int{}
+		alias := map[int]bool{} // nested reference that turned out to be the same reference as another one
+		if i%3 == 1 {
+			f0 := files[0]
+			lf := f0.Leaves[rng.Intn(len(f0.Leaves))]
+			files = append(files, &fsim.File{ID: 100, Name: "data chunk of f0", Root: boson.MustParseHexAddress(lf), Chunks: map[string]bool{lf: true}, Leaves: []string{lf}})
+			parent[len(files)-1] = 0
+			files = append(files, &fsim.File{ID: 101, Name: "file reference inside the manifest of f0"}) // filled in when f0 is stored
+			parent[len(files)-1] = 0
+			run.Stat("histories_with_nested_references", 1)
+		}
 		var hist []opRec
 		witness := func(extra map[string]interface{}) map[string]interface{} {
 			var fd []map[string]interface{}
@@ -119,7 +133,7 @@ func histories(t *testing.T, shard int) {
 			return o
 		}
 		stored := make([]bool, len(files))
-		pinned := make([]bool, len(files))            // last operation on the reference was a pin
+		pinned := make([]bool, len(files))             // last operation on the reference was a pin
 		effect := make([]map[string]int64, len(files)) // D recorded at pin time
 		kinds := map[string]bool{}
 		pins := func() map[string]uint64 {
@@ -141,6 +155,9 @@ func histories(t *testing.T, shard int) {
 				gs[a.String()] = true
 			}
 			for fi, f := range files {
+				if f.Chunks == nil {
+					continue // nested reference not materialised yet
+				}
 				has, err := w.N.Pin.HasPin(f.Root)
 				if err != nil {
 					c.Viol("haspin-error", err.Error(), witness(nil))
@@ -159,6 +176,45 @@ func histories(t *testing.T, shard int) {
 		for k := 0; k < 14; k++ {
 			fi := rng.Intn(len(files))
 			f := files[fi]
+			if p, nested := parent[fi]; nested && !stored[fi] {
+				// a nested reference exists once its outer file is stored
+				if !stored[p] {
+					hist = append(hist, opRec{Op: "upload", File: p, Via: "pin=false"})
+					if err := w.Upload(files[p], false); err != nil {
+						t.Fatalf("upload: %v", err)
+					}
+					stored[p] = true
+				}
+				if alias[fi] {
+					continue
+				}
+				if f.Chunks == nil {
+					ref, err := w.EntryRef(files[p])
+					if err != nil {
+						t.Fatalf("entry reference: %v", err)
+					}
+					same := false
+					for _, g := range files {
+						if g.Chunks != nil && g.Root.Equal(ref) {
+							same = true // one-chunk file: the file reference is the data chunk itself
+						}
+					}
+					if same {
+						alias[fi] = true
+						continue
+					}
+					f.Root, f.Chunks = ref, map[string]bool{}
+					if err := w.N.Trav.Traverse(ctx, ref, func(a boson.Address) error { f.Chunks[a.String()] = true; return nil }); err != nil {
+						t.Fatalf("traverse entry reference: %v", err)
+					}
+					for ch := range f.Chunks {
+						if !files[p].Chunks[ch] {
+							t.Fatalf("chunk %s of the inner file reference is no chunk of the outer file", ch[:8])
+						}
+					}
+				}
+				stored[fi] = true
+			}
 			if !stored[fi] {
 				// store it first: plain upload, or upload pinned at upload time (= a pin via upload)
 				pinAtUpload := rng.Intn(4) == 0
